@@ -1,7 +1,7 @@
 (** C20 — simultaneous runs on one graph do not influence each other.
     Partial (as C15): in the model two runs share nothing but the immutable graph; the tie to the code
     is the pair correspondence (two real runs on one `FnGraph`, interleaved in one task). *)
-From FG Require Import Dag Builder Sched SchedInv SchedInv2 HistFacts SI_Step SI2_Step.
+From FG Require Import Dag Builder Sched SchedInv SchedInv2 HistFacts SI_Step SI2_Step StreamInv SI_Stream.
 
 (** For every interleaving of the events of two runs, each component of the product machine is
     exactly the single run on its own events. *)
@@ -22,6 +22,24 @@ Proof.
   split; apply inv2_run; assumption.
 Qed.
 Print Assumptions C20_each_run_keeps_its_guarantees.
+
+(** The same for two streams on one graph value (the second possibly created while FnRefs of the
+    first are still held): each component is exactly the single stream on its own events, and keeps
+    the stream invariant. *)
+Theorem C20_streams_independent : forall scA scB evs,
+  fst (srun2 scA scB evs) = srun scA (proj_sevents true evs) /\
+  snd (srun2 scA scB evs) = srun scB (proj_sevents false evs).
+Proof. exact sindependent. Qed.
+Print Assumptions C20_streams_independent.
+
+Theorem C20_each_stream_keeps_its_guarantees : forall scA scB evs,
+  scfg_ok scA -> scfg_ok scB ->
+  SInv scA (fst (srun2 scA scB evs)) /\ SInv scB (snd (srun2 scA scB evs)).
+Proof.
+  intros scA scB evs HA HB. destruct (sindependent scA scB evs) as [-> ->].
+  split; apply sinv_run; assumption.
+Qed.
+Print Assumptions C20_each_stream_keeps_its_guarantees.
 
 (** Non-vacuity: two for_each runs (forward and reverse) on the chain 0 -> 1, polled alternately. *)
 Example C20_example :
